@@ -43,3 +43,26 @@ kanirun.META["C07"] = {
     "outside": "the std RwLock build (feature parking_lot off); real preemption and the hardware memory model (reader/writer exclusion of the lock is trusted); local-mode clause (d) is decided in the C08 protocol harness",
     "assumptions": COMMON_ASSUME + ["parking_lot::RwLock provides reader/writer exclusion (trusted); the model reports would-block instead of blocking"],
 }
+
+kanirun.META["C13"] = {
+    "bounds": "entry level: value types ZST, u8, Box<u8>, #[repr(align(32))], (u64,u64), drop-tracked value; static and dynamic entries; life cycles create -> [<= 2 reloads] -> drop | into_inner; "
+              "8 (stored type, requested type) pairs; map level: see C02 bounds",
+    "outside": "reload racing a reader (C07 covers the lock discipline); the real allocator (CBMC's allocation model is the oracle); value types beyond the menu",
+    "assumptions": COMMON_ASSUME,
+}
+
+kanirun.META["C10"] = {
+    "bounds": "entry level: reloadable / opted-out / built-in Storable types x mutable in {true,false}; history level: see harness list (histories of <= 4 cache operations on one key followed by one edit+event+reloader pass)",
+    "outside": "sources that fail configure_hot_reloading at run time; filesystem source",
+    "assumptions": COMMON_ASSUME,
+}
+kanirun.META["C17"] = {
+    "bounds": "all sequences of <= 3 calls from {get, get_or_try_init(Ok|Err, seed mutated or not), get_or_init}; seed/value types (Tk,Box<u8>) [drop path] and u8 [no-drop path]; all u8 payloads",
+    "outside": "panicking initialisers and destructors (Kani has no unwinding); the internals of the real once_cell (its serialisation contract is trusted, so racing callers = call orders)",
+    "assumptions": COMMON_ASSUME + ["once_cell::sync::OnceCell serialises initialisers and publishes the value with release/acquire (trusted contract)"],
+}
+kanirun.META["C03"] = {
+    "bounds": "ErrorKind::or: all 4x4 kind pairs, folds over <= 3 extensions; load_from_source: extension lists of length 0..3, each extension absent/unreadable/undecodable/decodable, content <= 2 bytes, with and without default_value; FileContent: all three variants",
+    "outside": "shipped serde/image/sound loaders; large files; whitespace trimming beyond the stated content bound; cache-level compounds beyond depth 2",
+    "assumptions": COMMON_ASSUME,
+}
